@@ -359,10 +359,17 @@ impl G1Affine {
     /// otherwise, API invariants may be broken.** Please consider using
     /// `from_uncompressed()` instead.
     fn from_uncompressed_unchecked(bytes: &[u8; UNCOMPRESSED_SIZE]) -> CtOption<Self> {
+        // `blst_p1_deserialize` also accepts a compressed encoding (flag in the most
+        // significant bit) and would then ignore the second half of the buffer:
+        // an uncompressed encoding must not have the compression flag set.
+        let compression_flag_set = bytes[0] & 0x80 != 0;
         let mut raw = blst_p1_affine::default();
         let success =
             unsafe { blst_p1_deserialize(&mut raw, bytes.as_ptr()) == BLST_ERROR::BLST_SUCCESS };
-        CtOption::new(G1Affine(raw), Choice::from(success as u8))
+        CtOption::new(
+            G1Affine(raw),
+            Choice::from((success && !compression_flag_set) as u8),
+        )
     }
 
     /// Attempts to deserialize a compressed element.
